@@ -33,7 +33,9 @@ Pool == {Req("Lit01", "lit01", "f_lit01", "c_01"), Req("LitFT", "litFT", "f_litF
          Req("NoProvider", "none", "f_nop", "c_nop"), Req("Rec", "rec", "f_rec", "c_rec"),
          \* one union type dumped with objects of two runtime classes (class dispatch), one model pair converted with and without recipe
          Req("DumpPet", "dump_pet", "f_u_animal_p", "c_u_animal_p"), Req("DumpPetDog", "dump_petdog", "f_u_animal_pd", "c_u_animal_pd"),
-         Req("ConvPlain", "conv_plain", "f_conv_plain", "c_conv_plain"), Req("ConvRecipe", "conv_recipe", "f_conv_recipe", "c_conv_recipe")}
+         Req("ConvPlain", "conv_plain", "f_conv_plain", "c_conv_plain"), Req("ConvRecipe", "conv_recipe", "f_conv_recipe", "c_conv_recipe"),
+         \* the same through the other entry point, retort.convert(obj, Dst[, recipe=...]) (the plain form shares the cache entry of get_converter)
+         Req("ConvertPlain", "conv_plain", "f_conv_plain", "c_conv_plain"), Req("ConvertRecipe", "conv_recipe", "f_convert_recipe", "c_conv_recipe")}
 \* retort constructions: the base retort, base.replace(strict_coercion=False), base.extend(recipe=[loader(int, ..)])
 Retorts == {"base", "replaced", "extended"}
 \* the behaviour a construction prescribes for a request (history-free by definition)
